@@ -246,3 +246,30 @@ package net
 //@   ensures spec_sameTop(result, *ip, spec_wid(*ip)-n)
 //@   ensures spec_hostZero(result, spec_wid(*ip)-n)
 //@   modifies nothing
+
+// Property C34: conversion to and from the API types keeps address, family and
+// prefix length.
+//@ contract IP.ToProto
+//@   props C34
+//@   ensures result != nil && verif_fresh(result)
+//@   ensures result.Higher == ip.higher && result.Lower == ip.lower && (result.Version == api.IP_IPv4) == ip.isLegacy
+//@   modifies nothing
+
+//@ contract IPFromProtoIP
+//@   props C34
+//@   requires addr != nil
+//@   ensures result.higher == addr.Higher && result.lower == addr.Lower && result.isLegacy == (addr.Version == api.IP_IPv4)
+//@   modifies nothing
+
+//@ contract Prefix.ToProto
+//@   props C34
+//@   ensures result != nil && verif_fresh(result) && result.Address != nil && verif_fresh(result.Address)
+//@   ensures result.Length == uint32(p.len) && result.Address.Higher == p.addr.higher && result.Address.Lower == p.addr.lower && (result.Address.Version == api.IP_IPv4) == p.addr.isLegacy
+//@   modifies nothing
+
+//@ contract NewPrefixFromProtoPrefix
+//@   props C34
+//@   requires pfx != nil && pfx.Address != nil
+//@   ensures result != nil && verif_fresh(result)
+//@   ensures uint32(result.len) == pfx.Length&255 && result.addr.higher == pfx.Address.Higher && result.addr.lower == pfx.Address.Lower && result.addr.isLegacy == (pfx.Address.Version == api.IP_IPv4)
+//@   modifies nothing
